@@ -15,6 +15,9 @@ package prodwt
 //	C06  a conflicting authorization bans exactly that id
 //	C10  the raw sync reply parses (reference parser) to key, offset, bitfield
 //	     of the recorded slots and verifies under the server key
+//	C08  a burst of valid re-sends from one source address is recorded completely
+//	C12  hundreds of idle / half-sent sync connections do not stop the sync service
+//	C20  the start-up catch-up of a fresh server ends with the clock inside the window
 //	C17  GCA-signed server records are listed (GET and sync reply) exactly as
 //	     signed, zero ports and empty locations included
 //	C03  the live week is served with the recorded values and a valid signature
@@ -36,6 +39,7 @@ import (
 	"net"
 	"os"
 	"path/filepath"
+	"syscall"
 	"time"
 
 	"github.com/glowlabs-org/gca-backend/glow"
@@ -229,6 +233,12 @@ func lifeEpisode(work string, seed int64, f *fake) event {
 		}
 		return false
 	}
+	if now0, off0 := glow.CurrentTimeslot(), l.s.VerifSnapshot(false).Offset; int64(now0)-int64(off0) >= 4000 || now0 < off0 {
+		// NewGCAServer has returned: the blocking catch-up is over, and it ends only when now-offset < 4000
+		l.bad("C20:startup-leaves-current-slot-outside-window: after the start-up of a fresh production server the clock is at timeslot %d and the window starts at %d (%d weeks behind): no report near the clock can be stored", now0, off0, (int64(now0)-int64(off0))/2016)
+		s.Close()
+		return l.result()
+	}
 	if !settle() {
 		return event{"result": "inconclusive", "why": fmt.Sprintf("the rotation due after start-up (now-offset=%d) did not happen within 30 s", int64(now)-int64(off))}
 	}
@@ -359,6 +369,65 @@ func lifeEpisode(work string, seed int64, f *fake) event {
 		l.bad("C02:over-capacity-not-banned: slot holds %d want 1", rep.PowerOutput)
 	}
 	l.counts["c02_sequences"] += 3
+
+	// ---- C08 (server side): a device's paced or bunched re-sends that ARRIVE are recorded, all of them
+	nb := 0
+	for k := 0; k < 40; k++ {
+		sl := int64(now) - 60 - int64(k)
+		if !inWin(sl) {
+			continue
+		}
+		p := uint64(3000 + k)
+		if !l.sendUDP(report(A, uint32(sl), p)) {
+			l.bad("C08:delivered-retransmission-not-processed: datagram %d of a burst from one source address was not taken off the socket and handled", k)
+			break
+		}
+		if rep, ok := slotOf(A, uint32(sl)); !ok || rep.PowerOutput != p {
+			l.bad("C08:delivered-retransmission-not-recorded: report %d of a burst of valid re-sends from one source address (slot now-%d) is not recorded: slot holds %d", k, 60+k, rep.PowerOutput)
+			break
+		}
+		nb++
+	}
+	l.counts["c08_burst_recorded"] = nb
+
+	// ---- C12: many idle / abandoned sync connections, then sync requests are still answered
+	{
+		var rl syscall.Rlimit
+		if syscall.Getrlimit(syscall.RLIMIT_NOFILE, &rl) == nil && rl.Cur < rl.Max {
+			rl.Cur = rl.Max
+			syscall.Setrlimit(syscall.RLIMIT_NOFILE, &rl)
+		}
+		var conns []net.Conn
+		for i := 0; i < 640; i++ {
+			c, err := net.DialTimeout("tcp", fmt.Sprintf("127.0.0.1:%d", tcpPort), 2*time.Second)
+			if err != nil {
+				break
+			}
+			if i%3 == 0 {
+				c.Write([]byte{1, 2}) // half a request
+			}
+			conns = append(conns, c)
+		}
+		l.counts["c12_idle_sync_connections"] = len(conns)
+		for _, c := range conns {
+			c.Close()
+		}
+		answered := 0
+		for i := 0; i < 6; i++ {
+			if raw, err := syncRaw(A.id); err == nil && len(raw) > 100 {
+				answered++
+			} else {
+				time.Sleep(300 * time.Millisecond)
+			}
+		}
+		if len(conns) >= 300 && answered == 0 {
+			l.bad("C12:liveness:sync-not-answered-after-idle-connections: after %d idle or half-sent sync connections were opened and closed, none of 6 sync requests of an authorized device was answered", len(conns))
+		}
+		if code, _, err := get("/api/v1/equipment"); err != nil || code != 200 {
+			l.bad("C12:liveness:equipment-not-answered: status %d err %v after the idle sync connections", code, err)
+		}
+		l.counts["c12_sync_answered_after_idle"] = answered
+	}
 
 	// ---- C17 (server side): GCA-signed server records enter the list exactly as signed
 	posted := map[[32]byte]refenc.AuthServer{}
